@@ -7,9 +7,9 @@ import (
 )
 
 // C04 mode A: the reply to an in-session command is an arbitrary byte string.
-//  - if its authenticated flag is clear it must never complete the command;
-//  - whenever the command completes, the datagram's trailing bytes are the session's
-//    keyed hash (under K1) of everything from the auth-type byte up to them.
+//   - if its authenticated flag is clear it must never complete the command;
+//   - whenever the command completes, the datagram's trailing bytes are the session's
+//     keyed hash (under K1) of everything from the auth-type byte up to them.
 func VerifC04_ArbitraryReply() {
 	auth, integ := vSuite()
 	vs := vNewSession(auth, integ)
@@ -64,7 +64,7 @@ func VerifC04_AuthenticReply() {
 	ctx, cancel := context.WithCancel(context.Background())
 	sid, seq := vU32(), vU32()
 	encrypted := vBool()
-	authenticated := vBool() // the authenticated flag of the datagram (the trailer is present either way)
+	authenticated := vBool()           // the authenticated flag of the datagram (the trailer is present either way)
 	cut := []int{0, 1, 16}[vChoice(3)] // bytes missing from the end of the AuthCode (16: all of it)
 	blocks := 1 + vChoice(vParam("maxblocks", 2))
 	var iv, pt, body []byte
